@@ -1,6 +1,531 @@
-//! Harness for property C01 (stub: not built yet).
+//! C01 — flushed documents survive any crash; recovery always converges.
+//!
+//! A *base workload* is a fault-free history over {add, update, remove, flush, close, reopen}.
+//! From its clean run (whose canonicalised backend mutation log is diffed, operation by
+//! operation, against the step list of the Lean crash machine) the harness derives *variants*:
+//!   crash k          power loss after the k-th backend mutation, reboot, reopen
+//!   crash k / j      the same, and a second fault on the j-th mutation of the recovery itself
+//!   fail|unknown p   a single backend call fails / lands-but-reports-failure, the process goes on
+//! Every variant ends with reopen · add · flush · reopen ("accepts and persists new writes").
+//! Each variant is executed line by line on the real code (in-process, `VStore` over `InMemory`)
+//! and on the Lean driver; answers, mutation logs and, after every successful reopen, `ids`,
+//! every `get` and every posting list of both indexes are compared.  Independently the oracle
+//! (`oracle.rs`) evaluates the durability contract on the real answers alone.
+mod gen_;
+mod ops;
+mod oracle;
+mod real;
+mod store;
+
+use ops::*;
+use oracle::Oracle;
+use real::*;
+use std::collections::BTreeMap;
+use std::sync::atomic::{AtomicU64, Ordering};
+use std::sync::{Arc, Mutex};
+use vh_common::serde_json::json;
+use vh_common::*;
+
+#[derive(Default)]
+pub struct VarOut {
+    pub outs: Vec<(String, String)>, // executed line, real answer
+    pub disagreements: Vec<(String, String, String)>, // what, model, impl
+    pub failures: Vec<(String, String, String, String)>,
+    pub raw: Vec<(char, String)>,
+    /// raw-log length before / after each line of the variant (usize::MAX = line skipped)
+    pub raw_before: Vec<usize>,
+    pub raw_after: Vec<usize>,
+    pub nontrivial: bool,
+    pub compared: u64,
+    pub hits: Vec<String>,
+    pub recreated: bool,
+}
+
+/// runs one variant on the real code (+ oracle) and, when given, on the Lean driver
+pub async fn run_variant(backend: Backend, lines: &[Line], mut model: Option<&mut ModelProc>) -> Result<VarOut, String> {
+    let mut real = Real::setup(backend).await?;
+    let mut o = VarOut::default();
+    let mut oracle = Oracle::default();
+    if let Some(m) = model.as_deref_mut() {
+        let a = m.ask("reset 2");
+        if a != "ok" {
+            o.disagreements.push(("driver reset".into(), a, "ok".into()));
+        }
+    }
+    let mut acked_mutation = false;
+    for line in lines {
+        let is_ctl = matches!(line, Line::Reopen(_) | Line::Arm(..) | Line::Disarm);
+        if real.off() && !is_ctl {
+            // the process died with the power: nothing more runs until the reboot
+            o.raw_before.push(usize::MAX);
+            o.raw_after.push(usize::MAX);
+            o.hits.push("skipped-after-power-loss".into());
+            continue;
+        }
+        let fault_possible = real.ctl.fault_pending() || real.off();
+        o.raw_before.push(real.ctl.log_len());
+        let out = real.exec(line).await;
+        let fault_possible = fault_possible || real.off();
+        o.raw_after.push(real.ctl.log_len());
+        o.hits.push(format!("op:{}", line.tag()));
+        o.hits.push(format!("out:{}", out.split(' ').next().unwrap_or("")));
+        if out.starts_with("ok") && matches!(line, Line::Add(_) | Line::Update(..) | Line::Remove(_)) && out != "ok none" {
+            acked_mutation = true;
+        }
+        oracle.observe(line, &out, fault_possible);
+        let real_log = real.take_log().await;
+        if let Some(m) = model.as_deref_mut() {
+            let mo = m.ask(&line.model_line());
+            o.compared += 1;
+            if mo != out {
+                o.disagreements.push((format!("answer of `{}`", line.show()), mo, out.clone()));
+            }
+            let ml = m.ask("log");
+            if backend == Backend::Mem && ml != real_log {
+                o.disagreements.push((format!("backend mutations of `{}`", line.show()), ml, real_log.clone()));
+            }
+        }
+        o.outs.push((line.show(), out.clone()));
+        if matches!(line, Line::Reopen(_)) && out == "ok" {
+            // observe the recovered collection
+            let bound = oracle.probe_bound();
+            let ids = real.ids().unwrap_or_default();
+            let mut gets = BTreeMap::new();
+            for id in 1..=bound {
+                gets.insert(id, real.get(id).await);
+            }
+            if let Some(m) = model.as_deref_mut() {
+                let want = format!("ids {}", if ids.is_empty() { "-".to_string() } else { join(&ids, ",") });
+                let got = m.ask("ids");
+                o.compared += 1;
+                if got != want {
+                    o.disagreements.push(("ids after reopen".into(), got, want));
+                }
+                for (id, ans) in &gets {
+                    let got = m.ask(&format!("get {id}"));
+                    o.compared += 1;
+                    if &got != ans {
+                        o.disagreements.push((format!("get {id} after reopen"), got, ans.clone()));
+                    }
+                }
+                for (ix, nk) in [(0usize, KEYS_A), (1usize, WORDS.len() as u64)] {
+                    for k in 0..nk {
+                        let want = real.ix(ix, k);
+                        let got = m.ask(&format!("ix {ix} {k}"));
+                        o.compared += 1;
+                        if got != want {
+                            o.disagreements.push((format!("index {ix} key {k} after reopen"), got, want));
+                        }
+                    }
+                }
+            }
+            if !ids.is_empty() && acked_mutation {
+                o.nontrivial = true;
+            }
+            oracle.check_recovered(&gets, &ids);
+        }
+    }
+    o.raw = real.raw_log();
+    o.failures = oracle.failures;
+    Ok(o)
+}
+
+pub struct CaseResult {
+    pub name: String,
+    pub lines: Vec<String>,
+    pub out: Result<VarOut, String>,
+    pub panicked: bool,
+}
+
+fn run_case(rt: &tokio::runtime::Runtime, backend: Backend, lines: &[Line], model: Option<&mut ModelProc>) -> (Result<VarOut, String>, bool) {
+    match std::panic::catch_unwind(std::panic::AssertUnwindSafe(|| rt.block_on(run_variant(backend, lines, model)))) {
+        Ok(r) => (r, false),
+        Err(_) => (Err("panic".into()), true),
+    }
+}
+
+fn show_lines(lines: &[Line]) -> Vec<String> {
+    lines.iter().map(|l| l.show()).collect()
+}
+
+fn parse_lines(ops: &[String]) -> Result<Vec<Line>, String> {
+    ops.iter().map(|l| Line::parse(l).ok_or_else(|| format!("bad op line: {l}"))).collect()
+}
+
+/// shrinks a variant on which the oracle fires with `key` (real code + oracle only)
+fn shrink_failure(rt: &tokio::runtime::Runtime, backend: Backend, lines: &[Line], key: &str) -> (Vec<String>, Option<(String, String, String, String)>) {
+    let small = shrink(
+        show_lines(lines),
+        |cand| {
+            let Ok(ls) = parse_lines(cand) else { return false };
+            let (r, p) = run_case(rt, backend, &ls, None);
+            (p && key == "panic") || r.is_ok_and(|o| o.failures.iter().any(|f| f.0 == key))
+        },
+        120,
+    );
+    let f = parse_lines(&small).ok().and_then(|ls| run_case(rt, backend, &ls, None).0.ok()).and_then(|o| o.failures.into_iter().find(|f| f.0 == key));
+    (small, f)
+}
+
+struct Merger<'a> {
+    rep: &'a mut Report,
+}
+
+impl Merger<'_> {
+    fn add(&mut self, backend: Backend, r: CaseResult, small: Option<(Vec<String>, Option<(String, String, String, String)>)>) {
+        let canon = format!("{}|{}", backend.name(), r.lines.join("|"));
+        match r.out {
+            Err(e) if r.panicked => {
+                let _ = e;
+                let ops = small.map(|s| s.0).unwrap_or(r.lines.clone());
+                self.rep.oracle_failure("panic", "the implementation panicked", &ops, "no panic", &format!("panic in case {} on {}", r.name, backend.name()));
+                self.rep.case(&canon, false);
+            }
+            Err(e) => {
+                self.rep.hit("case_error");
+                if self.rep.notes.len() < 10 {
+                    self.rep.notes.push(format!("case {} could not run: {e}", r.name));
+                }
+            }
+            Ok(o) => {
+                self.rep.case(&canon, o.nontrivial);
+                self.rep.model_compared += o.compared;
+                for h in &o.hits {
+                    self.rep.hit(h);
+                }
+                self.rep.hit(&format!("backend:{}", backend.name()));
+                for (what, m, i) in &o.disagreements {
+                    self.rep.disagreement(&format!("{what} [{}; case {}]", backend.name(), r.name), &r.lines, m, i);
+                }
+                if let Some(f) = o.failures.first() {
+                    let (ops, f2) = match small {
+                        Some((ops, Some(f2))) => (ops, f2),
+                        _ => (r.lines.clone(), f.clone()),
+                    };
+                    self.rep.oracle_failure(&f2.0, &format!("{} [{}; case {}]", f2.1, backend.name(), r.name), &ops, &f2.2, &f2.3);
+                }
+                if self.rep.samples.len() < self.rep.max_samples && o.nontrivial && r.lines.len() > 6 {
+                    self.rep.sample(json!({"case": r.name, "backend": backend.name(), "ops": r.lines, "answers": o.outs.iter().map(|x| x.1.clone()).collect::<Vec<_>>()}));
+                }
+            }
+        }
+    }
+}
+
+fn tail(rc: &mut u64, fl: &mut u64, body: u64) -> Vec<Line> {
+    let mut t = vec![];
+    *rc += 1;
+    t.push(Line::Reopen(*rc));
+    t.push(Line::Add(DocC { body, a: 0, ws: vec![0] }));
+    *fl += 1;
+    t.push(Line::Flush(*fl));
+    *rc += 1;
+    t.push(Line::Reopen(*rc));
+    t
+}
+
+fn model_count(raw: &[(char, String)], from: usize, to: usize) -> u64 {
+    raw[from.min(raw.len())..to.min(raw.len())].iter().filter(|(op, p)| model_event(*op, p).is_some()).count() as u64
+}
+
+/// all variants of a base workload (`full`: every cut / every nested cut / every single fault)
+fn variants(rt: &tokio::runtime::Runtime, base: &[Line], rng: &mut Rng, full: bool, clean: &VarOut) -> Vec<(String, Vec<Line>)> {
+    let _ = rt;
+    let mut out = vec![];
+    let n_base = base.len();
+    // raw length when the base ops are done = total mutations of the workload
+    let n_real = clean.raw_after[..n_base].iter().rev().find(|x| **x != usize::MAX).copied().unwrap_or(0);
+    let (mut rc, mut fl) = counters(base);
+    let with_tail = |pre: Vec<Line>, mid: Vec<Line>, rc: &mut u64, fl: &mut u64| {
+        let mut v = pre;
+        v.extend(base.iter().cloned());
+        v.extend(mid);
+        v.extend(tail(rc, fl, 900));
+        v
+    };
+    let mut cuts: Vec<usize> = (0..=n_real).collect();
+    if !full && cuts.len() > 12 {
+        // keep the cuts around the last checkpoint sequence, sample the rest
+        let mut keep: Vec<usize> = vec![];
+        if let Some(p) = clean.raw[..n_real].iter().rposition(|(_, p)| p == "db/c/meta.cbor") {
+            keep.extend([p, p + 1, p + 2, p + 3].into_iter().filter(|x| *x <= n_real));
+        }
+        rng.shuffle(&mut cuts);
+        for c in cuts.iter().take(12usize.saturating_sub(keep.len())) {
+            if !keep.contains(c) {
+                keep.push(*c);
+            }
+        }
+        keep.sort();
+        cuts = keep;
+    }
+    for k in &cuts {
+        let km = model_count(&clean.raw, 0, *k);
+        let (mut rc2, mut fl2) = (rc, fl);
+        out.push((format!("crash@{k}"), with_tail(vec![Line::Arm(Kind::Crash, km, *k as u64)], vec![], &mut rc2, &mut fl2)));
+    }
+    // single faults on model-level mutations
+    let mut poss: Vec<usize> = (0..n_real).filter(|i| model_event(clean.raw[*i].0, &clean.raw[*i].1).is_some()).collect();
+    if !full {
+        rng.shuffle(&mut poss);
+        poss.truncate(4);
+    }
+    for p in poss {
+        let pm = model_count(&clean.raw, 0, p);
+        let kinds: Vec<Kind> = if full { vec![Kind::Fail, Kind::Unknown] } else { vec![if rng.chance(2, 3) { Kind::Unknown } else { Kind::Fail }] };
+        for kind in kinds {
+            let (mut rc2, mut fl2) = (rc, fl);
+            out.push((format!("{}@{p}", kind.name()), with_tail(vec![Line::Arm(kind, pm, p as u64)], vec![], &mut rc2, &mut fl2)));
+        }
+    }
+    let _ = (&mut rc, &mut fl);
+    out
+}
+
+/// nested variants of one crash variant: a second fault inside the recovery
+fn nested(base_variant: &[Line], first: &VarOut, rng: &mut Rng, full: bool) -> Vec<(String, Vec<Line>)> {
+    let mut out = vec![];
+    // the first reopen of the variant that succeeded and wrote something
+    let Some(ri) = base_variant.iter().position(|l| matches!(l, Line::Reopen(_))) else { return out };
+    if first.raw_before.get(ri).is_none_or(|x| *x == usize::MAX) {
+        return out;
+    }
+    let (s, e) = (first.raw_before[ri], first.raw_after[ri]);
+    if e <= s {
+        return out;
+    }
+    let mut js: Vec<usize> = (0..(e - s)).collect();
+    if !full {
+        rng.shuffle(&mut js);
+        js.truncate(3);
+    }
+    let Line::Reopen(rc0) = base_variant[ri] else { return out };
+    for j in js {
+        let jm = model_count(&first.raw, s, s + j);
+        let is_model = model_event(first.raw[s + j].0, &first.raw[s + j].1).is_some();
+        let kinds: Vec<Kind> = if full && is_model { vec![Kind::Crash, Kind::Unknown] } else if !full && is_model && rng.chance(1, 4) { vec![Kind::Unknown] } else { vec![Kind::Crash] };
+        for kind in kinds {
+            let mut v: Vec<Line> = base_variant[..ri].to_vec();
+            v.push(Line::Arm(kind, jm, j as u64));
+            v.push(Line::Reopen(rc0)); // hit by the fault
+            // later wall-clock stand-ins shift by one
+            for l in &base_variant[ri..] {
+                v.push(match l {
+                    Line::Reopen(n) => Line::Reopen(n + 1),
+                    Line::Close(n) => Line::Close(n + 1),
+                    other => other.clone(),
+                });
+            }
+            out.push((format!("+{}@{j}", kind.name()), v));
+        }
+    }
+    out
+}
+
+/// highest wall-clock / flush stand-ins used by a base workload
+fn counters(base: &[Line]) -> (u64, u64) {
+    let mut rc = 0;
+    let mut fl = 1_000_000;
+    for l in base {
+        match l {
+            Line::Reopen(n) | Line::Close(n) => rc = rc.max(*n),
+            Line::Flush(n) => fl = fl.max(*n),
+            _ => {}
+        }
+    }
+    (rc, fl)
+}
+
+struct Worker {
+    rt: tokio::runtime::Runtime,
+    model: Option<ModelProc>,
+}
+
+impl Worker {
+    fn new(args: &Args) -> Worker {
+        Worker { rt: tokio::runtime::Builder::new_current_thread().enable_all().build().unwrap(), model: ModelProc::from_args(args) }
+    }
+
+    fn one(&mut self, backend: Backend, name: String, lines: &[Line], with_model: bool) -> (CaseResult, Option<(Vec<String>, Option<(String, String, String, String)>)>) {
+        let model = if with_model && backend == Backend::Mem { self.model.as_mut() } else { None };
+        let (out, panicked) = run_case(&self.rt, backend, lines, model);
+        let small = match &out {
+            Ok(o) if !o.failures.is_empty() => Some(shrink_failure(&self.rt, backend, lines, &o.failures[0].0)),
+            Err(_) if panicked => Some(shrink_failure(&self.rt, backend, lines, "panic")),
+            _ => None,
+        };
+        (CaseResult { name, lines: show_lines(lines), out, panicked }, small)
+    }
+
+    /// a base workload and its variants
+    fn base(&mut self, backend: Backend, name: &str, base: &[Line], rng: &mut Rng, full: bool, sink: &Mutex<Vec<(Backend, CaseResult, Option<(Vec<String>, Option<(String, String, String, String)>)>)>>) {
+        let (rc, fl) = counters(base);
+        let (mut rc2, mut fl2) = (rc, fl);
+        let mut clean_lines = base.to_vec();
+        clean_lines.extend(tail(&mut rc2, &mut fl2, 900));
+        let (clean, small) = self.one(backend, format!("{name}/clean"), &clean_lines, true);
+        let vars = match &clean.out {
+            Ok(o) => variants(&self.rt, base, rng, full, o),
+            Err(_) => vec![],
+        };
+        sink.lock().unwrap().push((backend, clean, small));
+        let mut nested_budget = if full { usize::MAX } else { 2 };
+        for (vn, lines) in vars {
+            let (r, small) = self.one(backend, format!("{name}/{vn}"), &lines, true);
+            let nest = match &r.out {
+                Ok(o) if vn.starts_with("crash@") && nested_budget > 0 && (full || rng.chance(1, 3)) => {
+                    let n = nested(&lines, o, rng, full);
+                    if !n.is_empty() {
+                        nested_budget -= 1;
+                    }
+                    n
+                }
+                _ => vec![],
+            };
+            sink.lock().unwrap().push((backend, r, small));
+            for (nn, nl) in nest {
+                let (r, small) = self.one(backend, format!("{name}/{vn}{nn}"), &nl, true);
+                sink.lock().unwrap().push((backend, r, small));
+            }
+        }
+    }
+}
+
+/// crash inside database / collection creation: reopens, possibly after the documented
+/// delete-and-recreate, and accepts writes (oracle only; the model starts after creation)
+async fn create_crash(backend: Backend, k: u64) -> Result<(bool, Vec<String>), String> {
+    let mut real = Real::blank(backend);
+    real.ctl.crash_after(k);
+    let first = real.exec(&Line::Reopen(0)).await;
+    let crashed = real.off();
+    let outcome = real.open_after_create_crash().await;
+    let mut problems = vec![];
+    let recreated = match outcome {
+        OpenOutcome::Ok => false,
+        OpenOutcome::Recreated => true,
+        OpenOutcome::Err(e) => {
+            problems.push(format!("create crashed after {k} mutations ({first}); reopen failed even with delete-and-recreate: {e}"));
+            return Ok((crashed, problems));
+        }
+    };
+    let _ = recreated;
+    let a = real.exec(&Line::Add(DocC { body: 1, a: 1, ws: vec![1] })).await;
+    let f = real.exec(&Line::Flush(1_000_001)).await;
+    let r = real.exec(&Line::Reopen(5)).await;
+    let g = real.get(1).await;
+    if a != "ok 1" || !f.starts_with("ok") || r != "ok" || g != "ok doc 1 0:1,1:1" {
+        problems.push(format!("create crashed after {k} mutations; afterwards add -> {a}, flush -> {f}, reopen -> {r}, get 1 -> {g}"));
+    }
+    Ok((crashed, problems))
+}
+
 fn main() {
-    let a = vh_common::Args::parse();
-    let r = vh_common::Report::new("C01", &a, "stub");
-    r.write(&a);
+    let args = Args::parse();
+    let mut rep = Report::new(
+        "C01",
+        &args,
+        "case = one variant (clean run | crash after the k-th backend mutation | that plus a second fault inside the recovery | one call failing / landing-but-reporting-failure) \
+         of a generated base workload (4..16 ops over add/update/remove/flush/close/reopen, B-tree + BM25 indexed fields), always followed by reopen, add, flush, reopen; \
+         distinct = distinct op list per backend; non-trivial = at least one add/update/remove was acknowledged and a reopen succeeded with a non-empty id set",
+    );
+    let thorough = args.thorough() || args.focus.is_some();
+    let sink = Mutex::new(vec![]);
+
+    if let Some(p) = &args.replay {
+        let ops = read_replay(p);
+        let mut w = Worker::new(&args);
+        match parse_lines(&ops) {
+            Ok(lines) => {
+                let (r, small) = w.one(Backend::Mem, "replay".into(), &lines, true);
+                sink.lock().unwrap().push((Backend::Mem, r, small.map(|_| (ops.clone(), None))));
+            }
+            Err(e) => rep.notes.push(e),
+        }
+    } else {
+        // ---- corpus (first) ------------------------------------------------------------
+        let mut w = Worker::new(&args);
+        if let Some(dir) = &args.corpus {
+            for (name, ops) in read_corpus(dir) {
+                let expand = ops.first().is_some_and(|l| l == "expand");
+                match parse_lines(&ops[if expand { 1 } else { 0 }..]) {
+                    Ok(lines) => {
+                        if expand {
+                            let mut rng = Rng::for_case(args.seed, 0xC0DE);
+                            w.base(Backend::Mem, &name, &lines, &mut rng, true, &sink);
+                        } else {
+                            let (r, small) = w.one(Backend::Mem, name, &lines, true);
+                            sink.lock().unwrap().push((Backend::Mem, r, small));
+                        }
+                    }
+                    Err(e) => rep.notes.push(format!("corpus {name}: {e}")),
+                }
+            }
+        }
+        drop(w);
+        // ---- generated base workloads, sharded over threads ------------------------------
+        let n_bases = args.budget(140, 2500);
+        let n_full = args.budget(4, 60); // bases expanded exhaustively (every cut, every nested cut, every single fault)
+        let next = AtomicU64::new(0);
+        let threads = std::thread::available_parallelism().map(|n| n.get()).unwrap_or(4).clamp(2, 12);
+        std::thread::scope(|s| {
+            for _ in 0..threads {
+                s.spawn(|| {
+                    let mut w = Worker::new(&args);
+                    loop {
+                        let i = next.fetch_add(1, Ordering::Relaxed);
+                        if i >= n_bases {
+                            break;
+                        }
+                        let mut rng = Rng::for_case(args.seed, i);
+                        let full = i < n_full;
+                        let base = gen_::gen_base(&mut rng, if full { 7 } else if thorough { 16 } else { 12 });
+                        w.base(Backend::Mem, &format!("gen{i}"), &base, &mut rng, full, &sink);
+                        // the other two backends: implementation + oracle (the wrappers' own write
+                        // protocol is C07/C08's model, not this one's)
+                        if i % 7 == 3 || (thorough && i % 3 == 0) {
+                            for be in [Backend::Meta, Backend::Enc] {
+                                let mut r2 = Rng::for_case(args.seed ^ 0xBEEF, i);
+                                w.base(be, &format!("gen{i}"), &base, &mut r2, false, &sink);
+                            }
+                        }
+                    }
+                });
+            }
+        });
+        // ---- crash inside creation ------------------------------------------------------
+        let rt = tokio::runtime::Builder::new_current_thread().enable_all().build().unwrap();
+        for be in [Backend::Mem, Backend::Meta, Backend::Enc] {
+            let mut fired = 0;
+            for k in 0..40u64 {
+                match std::panic::catch_unwind(std::panic::AssertUnwindSafe(|| rt.block_on(create_crash(be, k)))) {
+                    Ok(Ok((crashed, problems))) => {
+                        rep.case(&format!("create-crash|{}|{k}", be.name()), crashed);
+                        rep.hit("op:create-crash");
+                        if crashed {
+                            fired += 1;
+                        }
+                        for p in problems {
+                            rep.oracle_failure("create-crash", "a crash inside creation left a collection that cannot be reopened or recreated", &[format!("create-crash {} {k}", be.name())], "reopen, or AlreadyExists then delete_collection + recreate, then writes persist", &p);
+                        }
+                        if !crashed {
+                            break;
+                        }
+                    }
+                    Ok(Err(e)) => rep.notes.push(format!("create-crash {k}: {e}")),
+                    Err(_) => rep.oracle_failure("panic", "panic while reopening after a crash inside creation", &[format!("create-crash {} {k}", be.name())], "no panic", "panic"),
+                }
+            }
+            rep.measured.insert(format!("create_crash_points_{}", be.name()), json!(fired));
+        }
+    }
+
+    let results = sink.into_inner().unwrap();
+    let mut by_name: Vec<_> = results.into_iter().collect();
+    by_name.sort_by(|a, b| (a.0.name(), &a.1.name).cmp(&(b.0.name(), &b.1.name)));
+    let mut m = Merger { rep: &mut rep };
+    for (be, r, small) in by_name {
+        m.add(be, r, small);
+    }
+    let _ = Arc::new(());
+    rep.write(&args);
 }
